@@ -407,6 +407,14 @@ void w_nomatch_text(void)
   __CPROVER_assert(func_named, "[C15] POST nomatch.names_the_function");
   __CPROVER_assert(n_int == 2 && ints[0] == 1 && ints[1] == (long)x, "[C15] POST nomatch.prints_every_actual_argument");
   for (int i = 0; i < N; i++) if (!sat_match && in_where[i] == 0) __CPROVER_assert(cm[i]->reported, "[C04,C15] POST nomatch.listed_expectations_are_marked_reported");
+  /* C08: the WITH clauses of an expectation stop at the first that fails - also while the report is being put together */
+  __CPROVER_assert(vp_ev_n <= VP_EV_CAP, "[C08] MODEL event log capacity sufficient");
+  for (int i = 0; i < N; i++) {
+    int ff = MAXC; for (int k = MAXC - 1; k >= 0; k--) if (k < in_ncond[i] && !in_cres[i][k]) ff = k;     /* first failing clause */
+    for (int k = 0; k < MAXC; k++) if (k < in_ncond[i] && k > ff)
+      for (int e = 0; e < VP_EV_CAP; e++) if (e < vp_ev_n)
+        __CPROVER_assert(!(vp_ev[e].kind == VP_EV_COND && vp_ev[e].obj == cond[i][k]), "[C08] POST nomatch.no_WITH_clause_behind_a_failing_one_is_evaluated_not_even_for_the_report");
+  }
   __CPROVER_assert(!sat_match, "REACH nomatch.saturated_listing");
   __CPROVER_assert(!(ne >= 3), "REACH nomatch.listing_with_failed_with");
   __CPROVER_assert(0, "REACH! nomatch.end");
